@@ -261,6 +261,9 @@ var rawAlphabet = []byte("aabbc 0177AB\n\n\n\r\x00\xff\xc3\xa9:")
 func GenRaw(r *run.Rand, o GenOpts) *Workload {
 	w := &Workload{Scenario: "raw", Matcher: rawMatchers[r.Intn(len(rawMatchers))], Extract: rawExtracts[r.Intn(len(rawExtracts))],
 		Ignore: rawIgnores[r.Intn(len(rawIgnores))], Seed: r.U64()}
+	if r.Intn(4) == 0 {
+		w.Matcher = GenRegex(r)
+	}
 	nIn := 1
 	if !o.ReaderMode {
 		nIn = r.Range(1, 5)
@@ -425,4 +428,114 @@ func GenAligned(r *run.Rand, reader bool) *Workload {
 		w.Inputs[0].Steps = steps
 	}
 	return w
+}
+
+// ---------------------------------------------------------------- generated regular expressions
+
+// GenRegex builds a random regular expression over the vocabulary of the capture corpora
+// ("id=f0:12 key=abc val=77 opt=bc ..."): literal words with and without capture groups (a
+// pattern that is nothing but literals and groups is the shape a "literal fast path" gets
+// wrong), classes, alternations, optional / repeated / lazy / nested / named groups, anchors.
+// Whatever it returns compiles with Go's regexp (the reference); names are drawn from the
+// names the extract expressions use, so {key} / {val} / {tail} sometimes exist and sometimes not.
+func GenRegex(r *run.Rand) MatcherSpec {
+	lits := []string{"id=", "key=", "val=", "opt=", "key", "val", "a", "b", "ab", "bc", ":", " ", "=", "f", "0", "1", "KEY=", "x"}
+	classes := []string{`\w+`, `\d+`, `\d*`, `\w*`, `[a-c]+`, `[^ ]*`, `.`, `\S+`, `[0-9]`, `\w`}
+	names := []string{"key", "val", "file", "n", "all", "tail", "a", "b"}
+	used := map[string]bool{}
+	var node func(d int) string
+	atom := func(d int) string {
+		switch r.Intn(10) {
+		case 0, 1, 2, 3:
+			return regexp.QuoteMeta(lits[r.Intn(len(lits))])
+		case 4, 5:
+			return classes[r.Intn(len(classes))]
+		default:
+			if d <= 0 {
+				return regexp.QuoteMeta(lits[r.Intn(len(lits))])
+			}
+			inner := node(d - 1)
+			switch r.Intn(6) {
+			case 0:
+				return "(?:" + inner + ")"
+			case 1:
+				nm := names[r.Intn(len(names))]
+				if used[nm] {
+					return "(" + inner + ")"
+				}
+				used[nm] = true
+				return "(?P<" + nm + ">" + inner + ")"
+			default:
+				return "(" + inner + ")"
+			}
+		}
+	}
+	node = func(d int) string {
+		n := r.Range(1, 3)
+		var sb strings.Builder
+		for i := 0; i < n; i++ {
+			a := atom(d)
+			switch r.Intn(12) {
+			case 0:
+				a += "?"
+			case 1:
+				a += "*"
+			case 2:
+				a += "+"
+			case 3:
+				a += "??"
+			case 4:
+				a += "{1,2}"
+			}
+			sb.WriteString(a)
+		}
+		if d > 0 && r.Intn(6) == 0 {
+			return sb.String() + "|" + node(d-1)
+		}
+		return sb.String()
+	}
+	for try := 0; try < 20; try++ {
+		for k := range used {
+			delete(used, k)
+		}
+		var p string
+		if r.Intn(3) == 0 {
+			// pure literals and groups only
+			n := r.Range(1, 3)
+			for i := 0; i < n; i++ {
+				l := regexp.QuoteMeta(lits[r.Intn(len(lits))])
+				switch r.Intn(4) {
+				case 0:
+					p += l
+				case 1:
+					p += "(" + l + ")"
+				case 2:
+					nm := names[r.Intn(len(names))]
+					if used[nm] {
+						p += "(" + l + ")"
+					} else {
+						used[nm] = true
+						p += "(?P<" + nm + ">" + l + ")"
+					}
+				default:
+					p += "((" + l + ")" + regexp.QuoteMeta(lits[r.Intn(len(lits))]) + ")"
+				}
+			}
+		} else {
+			p = node(2)
+			switch r.Intn(8) {
+			case 0:
+				p = "^" + p
+			case 1:
+				p += "$"
+			case 2:
+				p = `\b` + p
+			}
+		}
+		m := MatcherSpec{Kind: "regex", Pattern: p, IgnoreCase: r.Intn(6) == 0}
+		if _, err := NewRefMatcher(m); err == nil {
+			return m
+		}
+	}
+	return MatcherSpec{Kind: "regex", Pattern: `(key)=(\w+)`}
 }
